@@ -72,7 +72,12 @@ func (n *sn) yang() string {
 	}
 	fmt.Fprintf(&b, "%s %s {", n.Kind, n.Name)
 	if n.Presence {
-		b.WriteString(" presence \"p\";")
+		// (the argument of presence is a free text; the container named pc has an empty one)
+		if n.Name == "pc" {
+			b.WriteString(" presence \"\";")
+		} else {
+			b.WriteString(" presence \"p\";")
+		}
 	}
 	if n.Key != "" {
 		fmt.Fprintf(&b, " key %q;", n.Key)
